@@ -8,6 +8,7 @@ model's checked `move_new` from the standard position, with no promotion piece.
 -/
 import ChessVerif.Props.C17.Basic
 import ChessVerif.Proofs.BookWalk.All
+import ChessVerif.Proofs.BookLines
 
 namespace Chess.Props.C17
 open Chess Chess.Book
@@ -23,5 +24,46 @@ theorem book_walk_ok : walkModel.illegal = 0 ∧ walkModel.oob = 0 ∧ walkModel
 /-- the walk is not vacuous: it visits 29 037 nodes over 29 036 moves -/
 theorem book_walk_size : walkModel.nodes = 29037 ∧ walkModel.edges = 29036 :=
   Proofs.BookWalk.book_walk_size'
+
+/-! ### the property in its own words: every path, every move -/
+
+/-- **Every path through the opening book, taken from its root, is a sequence of moves each of which is legal — by
+the rules of chess on the mailbox — in the position reached from the standard start by the preceding moves.**
+`Book.Path root ms`: at every level `ms` takes one of the moves the iterator yields there and continues among that
+move's children.  Obtained from `book_walk_ok` by an induction over the walk that holds for any way of playing a
+move (the count of refused moves never decreases), then carried to the rules by C01/C02 along the reachable boards. -/
+theorem every_line_legal (ms : List Move) (hp : Book.Path Book.root ms) :
+    (Spec.abs Board.standard).playable ms :=
+  Book.paths_legal ms hp
+
+/-- … and the implementation's checked make-move plays it to the end (this is how the command line consumes the book:
+`assert!(board.move_mut(..))` on every step) -/
+theorem every_line_playable (ms : List Move) (hp : Book.Path Book.root ms) :
+    (Book.playAll (fun b m => Board.moveNew b m) Board.standard ms).isSome = true :=
+  Book.paths_playable ms hp
+
+/-- … and needs no promotion choice -/
+theorem every_line_no_promotion (ms : List Move) (hp : Book.Path Book.root ms) : ∀ m ∈ ms, m.piece = none :=
+  Book.path_no_promotion Book.root ms hp
+
+/-- … and has at most `BOOK_SIZE / 2` moves: paths are finite, the walk cannot loop -/
+theorem every_line_bounded (ms : List Move) (hp : Book.Path Book.root ms) : 2 * ms.length ≤ Book.root :=
+  Book.path_length Book.root ms hp
+
+/-- non-vacuity: 1. e2-e4 is a path of the book (the first move the root iterator yields) -/
+example : Book.Path Book.root [⟨12, 28, none⟩] := by
+  have h : step root = .yield 12 28 87201 32462 := by
+    have : (match step root with
+      | .yield s d c n => s == 12 && d == 28 && c == 87201 && n == 32462
+      | _ => false) = true := by decide +kernel
+    revert this
+    cases step root with
+    | yield s d c n =>
+      simp only [Bool.and_eq_true, beq_iff_eq]
+      rintro ⟨⟨⟨rfl, rfl⟩, rfl⟩, rfl⟩
+      rfl
+    | done => intro h; cases h
+    | oob => intro h; cases h
+  exact Book.Path.take h (Book.Path.nil _)
 
 end Chess.Props.C17
